@@ -157,6 +157,10 @@ class SqlSem:
             if lo.get("limit_by"):
                 raise Unsupported("LIMIT BY")
             limit = self.const_int(lo["limit"]) if lo.get("limit") is not None else None
+            if limit is not None and limit < 0:
+                if self.dialect != "sqlite":
+                    raise Unsupported("negative LIMIT outside SQLite")
+                limit = None          # SQLite: a negative LIMIT means no upper bound
             offset = self.const_int(lo["offset"]["value"]) if lo.get("offset") else None
         body = q["body"]
         return self.setexpr(body, env, order_by, limit, offset)
